@@ -419,15 +419,17 @@ def chunk_staged(chunk, acc):
                 stager_budget -= 1
             acc.states += 1
             acc.transitions += 1
-            req = c2.HttpRequest(method=b"GET", uri=uri.encode(), params={}, headers={}, body=b"")
-            resp = c2.HttpResponse(status=200, headers={}, reason=b"OK", body=body, request=req)
-            got = call(cap.find_staged_beacon, resp)
-            kind = type(got).__name__
-            acc.case((uri, body_name), nontrivial=stager or kind != "NoneType", outcome=(stager, kind))
-            exp = "BeaconConfig" if (stager and body_name == "valid") else "NoneType"
-            if kind != exp:
-                sig = "C20/staged/non-stager-request-treated-as-staged" if not stager else "C20/staged/stager-request"
-                acc.fail(sig, {"kind": "staged", "uri": uri, "body": body_name, "seed": acc.seed}, exp, repr(got)[:100])
+            # (a known request that is not a stager URI is never a staged beacon - whatever its verb)
+            for method in (b"GET",) if stager else (b"GET", b"POST", b"PUT", b"HEAD", b"get"):
+                req = c2.HttpRequest(method=method, uri=uri.encode(), params={}, headers={}, body=b"")
+                resp = c2.HttpResponse(status=200, headers={}, reason=b"OK", body=body, request=req)
+                got = call(cap.find_staged_beacon, resp)
+                kind = type(got).__name__
+                acc.case((uri, body_name, method), nontrivial=stager or kind != "NoneType", outcome=(stager, kind))
+                exp = "BeaconConfig" if (stager and body_name == "valid") else "NoneType"
+                if kind != exp:
+                    sig = "C20/staged/non-stager-request-treated-as-staged" if not stager else "C20/staged/stager-request"
+                    acc.fail(sig, {"kind": "staged", "uri": uri, "body": body_name, "seed": acc.seed, "method": method.decode()}, exp, repr(got)[:100])
     acc.sample({"request_uri": "/aaa5", "stager": ref_x86("/aaa5"), "body": "valid beacon", "expect": "None unless stager"})
 
 
@@ -473,7 +475,7 @@ def replay(case):
 
             cap = pcap.BeaconCapture(pcap="unused.pcap")
             body = _beacon_body(case["seed"]) if case["body"] == "valid" else lcg(300, case["seed"] + 5)
-            req = None if case["uri"] is None else c2.HttpRequest(method=b"GET", uri=case["uri"].encode(), params={}, headers={}, body=b"")
+            req = None if case["uri"] is None else c2.HttpRequest(method=case.get("method", "GET").encode(), uri=case["uri"].encode(), params={}, headers={}, body=b"")
             got = call(cap.find_staged_beacon, c2.HttpResponse(status=200, headers={}, reason=b"OK", body=body, request=req))
             stager = case["uri"] is None or ref_x86(case["uri"]) or ref_x64(case["uri"])
             exp = "BeaconConfig" if (stager and case["body"] == "valid") else "NoneType"
